@@ -4,6 +4,7 @@ package c04
 import (
 	"encoding/json"
 	"fmt"
+	"math/big"
 	"sort"
 	"strconv"
 	"strings"
@@ -283,6 +284,63 @@ func Run(r *fw.Run) {
 				}
 				prev = s
 			})
+		})
+	}
+	// numeric boundaries: 2^k-1, 2^k, 2^k+1 for every k up to 70 as major, minor, patch and numeric
+	// pre-release; every version alone, against a few fixed versions, and (k <= 26) all pairs
+	{
+		var mu sync.Mutex
+		var small, all []string
+		for k := 0; k <= 70; k++ {
+			for _, d := range []int64{-1, 0, 1} {
+				n := new(big.Int).Lsh(big.NewInt(1), uint(k))
+				n.Add(n, big.NewInt(d))
+				if n.Sign() < 0 {
+					continue
+				}
+				ds := n.String()
+				vs := []string{"v1.0." + ds, "v1." + ds + ".0", "v" + ds + ".0.0", "v1.0.0-" + ds, "v1.1." + ds}
+				all = append(all, vs...)
+				if k <= 26 {
+					small = append(small, vs[:3]...)
+				}
+			}
+		}
+		r.Bounds["numeric_boundaries"] = fmt.Sprintf("%d versions around powers of two up to 2^70; all pairs of the %d with k <= 26", len(all), len(small))
+		fixed := []string{"v1.0.0", "v1.0.1", "v1.1.0", "v1.1.1", "v2.0.0", "v0.0.0", "v1.0.0-0", "v1.0.0-1", "v1.2097152.0", "v1.0.4294967296", "v1.0.18446744073709551616"}
+		fw.Parallel(16, func(sh int) {
+			l := fw.NewLocal()
+			defer r.Merge(l)
+			rep := func(a, b, msg string) {
+				mu.Lock()
+				r.Violation("pair:"+strconv.QuoteToASCII(a)+","+strconv.QuoteToASCII(b), msg, caseT{"pair", q(a, b)})
+				mu.Unlock()
+			}
+			for i := sh; i < len(all); i += 16 {
+				l.States++
+				l.Execs++
+				if msg, ok := unary(all[i]); msg != "" {
+					rep(all[i], "", msg)
+				} else if ok {
+					l.Nontrivial++
+				}
+				for _, f := range fixed {
+					l.Execs++
+					l.Transitions++
+					if msg := pair(all[i], f); msg != "" {
+						rep(all[i], f, msg)
+					}
+				}
+			}
+			for i := sh; i < len(small); i += 16 {
+				for j := range small {
+					l.Execs++
+					l.Transitions++
+					if msg := pair(small[i], small[j]); msg != "" {
+						rep(small[i], small[j], msg)
+					}
+				}
+			}
 		})
 	}
 	r.Sample(map[string]any{"kind": "unary", "examples_valid": pool[:min(8, len(pool))]})
